@@ -568,7 +568,7 @@ async fn conn_session(out: &mut Out, rng: &mut Rng, shards: usize) {
         t0,
         shards,
         c1: Conn::open(&st),
-        c2: Conn::open(&st),
+        c2: Conn::open_cfg(&st, crate::c05::lockstep_cfg()),
         st,
         twin: ShardedActorState::with_shards(1),
         in_multi: false,
@@ -992,7 +992,7 @@ async fn conn_corpus(out: &mut Out) {
         // a list with a deadline, watched; the deadline is reached before EXEC: nil (m7_watch_detects_deadline)
         let t0 = wall_ms();
         let st = ShardedActorState::with_shards(shards);
-        let mut w = W7 { t0, shards, c1: Conn::open(&st), c2: Conn::open(&st), st, twin: ShardedActorState::with_shards(1), in_multi: false, flagged: false, queue: vec![], watched: vec![], text: vec![], nontrivial: true, ticks: 0 };
+        let mut w = W7 { t0, shards, c1: Conn::open(&st), c2: Conn::open_cfg(&st, crate::c05::lockstep_cfg()), st, twin: ShardedActorState::with_shards(1), in_multi: false, flagged: false, queue: vec![], watched: vec![], text: vec![], nontrivial: true, ticks: 0 };
         out.op(format!("M NEW {}", t0), "ok".into());
         for (setup, key) in [("RPUSH w x y", "w"), ("SADD w m", "w"), ("HSET w f 1", "w"), ("ZADD w 1 m", "w"), ("SET w v", "w")] {
             w.foreign(out, &Data::of("DEL w")).await;
